@@ -775,6 +775,7 @@ func (db *DB) RollbackTo(name string) *DB {
 func (db *DB) Exec(sql string, values ...interface{}) (tx *DB) {
 	tx = db.getInstance()
 	tx.Statement.SQL = strings.Builder{}
+	tx.Statement.Vars = nil
 
 	if strings.Contains(sql, "@") {
 		clause.NamedExpr{SQL: sql, Vars: values}.Build(tx.Statement)
